@@ -341,7 +341,7 @@ def check_solve(chk, sc, consts):
     mi_user = sc.get("max_iter") if sc.get("max_iter") is not None else int(consts["max_cg_iterations"])
     cap_by_size = (not stopped_early) and mi_user > n + int(consts["size_slack"]) - 1 and r.iters >= n + 1
     has_p = sc.get("pre", "none") != "none"
-    robust_exhaustion = cap_by_size and (n <= 5 or (kap <= 150 and n <= 12) or (sc["fam"] != "geometric" and n <= 8 and not has_p)) and dt == F64
+    robust_exhaustion = cap_by_size and (n <= 5 or (not has_p and ((kap <= 150 and n <= 12) or (sc["fam"] != "geometric" and n <= 8)))) and dt == F64
     cap_cell = None
     if robust_exhaustion:
         # the Krylov space is exhausted and orthogonality is not yet lost: working-precision accuracy
@@ -389,7 +389,8 @@ def check_solve(chk, sc, consts):
 
 
 def pow2_ok(c):
-    return c > 0 and math.log2(c) == int(math.log2(c))
+    """Scaling by +-2^k commutes with rounding: the comparison is then exact."""
+    return math.log2(abs(c)) == int(math.log2(abs(c)))
 
 
 def check_scaling(chk, sc, c, consts):
@@ -405,9 +406,13 @@ def check_scaling(chk, sc, c, consts):
     if sc["rhs"].dtype == F32 and (sc["n"] == 1 or sc["kappa"] <= 1) and not (torch.isfinite(want).all() and torch.isfinite(got).all()):
         chk.violation(f"C11/minres/f32-exact-breakdown/n={sc['n']}|kappa={sc['kappa']:g}", "float32, Krylov space exhausted (almost) exactly: non-finite solution", pl)
         return
-    if not pow2_ok(c) and (sc["kappa"] > 1e3 or sc["n"] > 12):
-        c = 4.0 if c > 0 else 0.25
-        want, got = r1.result * c, run_impl(sc, rhs=sc["rhs"] * c).result
+    if not pow2_ok(c) and (sc["kappa"] > 1e3 or sc["n"] > 12 or sc["rhs"].dtype == F32 or (sc.get("pre", "none") != "none" and sc["n"] > 5)):
+        c = 4.0 if c > 0 else -2.0
+        r2 = run_impl(sc, rhs=sc["rhs"] * c)
+        if r2.err:
+            chk.violation(cell + "/raises", f"minres raised: {r2.err}", pl)
+            return
+        want, got = r1.result * c, r2.result
     pow2 = pow2_ok(c)
     if pow2:
         ok = torch.equal(want, got) and r1.iters == r2.iters
@@ -1050,6 +1055,20 @@ def property_scenarios(chk, g, rng):
                                         shift_kind=kinds[(i + rep) % 6], pre=pre, pre_form=rng.choice(["dense", "diag"]), value=value, **params)
 
 
+DOCUMENTED = {"size_slack": 1, "extra_iters": 2, "check_every": 10, "max_cg_iterations": 1000, "minres_tolerance": "1/10000",
+              "num_contour_quadrature": 15, "max_lanczos_iter": 20}
+
+
+def with_defaults(consts):
+    """Literals the translator could not recognise fall back to the documented values (the unrecognised literal is
+    already recorded as a broken obligation by `translator_crosscheck`), so that the implementation checks still run."""
+    from fractions import Fraction
+    for k, v in DOCUMENTED.items():
+        if consts.get(k) is None:
+            consts[k] = Fraction(v)
+    return consts
+
+
 def run(chk):
     consts = c11_minres.generate()
     chk.rule = ("SPD matrices with prescribed spectra (uniform / clustered / geometric, kappa 1..1e4) x n in {1,2,3,5,8,12,20,40} x batch/broadcast shapes "
@@ -1066,6 +1085,7 @@ def run(chk):
                         "scipy.special.ellipk / ellipj are correct; quadrature accuracy (Hale-Higham-Trefethen) and MINRES residual optimality are not proved, only checked numerically",
                         "torch.linalg.solve / eigh / eigvalsh (float64) as dense references"]
     translator_crosscheck(chk, consts)
+    consts = with_defaults(consts)
     chk.prove("LinOp.Properties.C11", ["LinOp/C11", "LinOp/Generated/C11Consts.lean", "LinOp/Core/Basic.lean", "LinOp/Core/Parse.lean", "LinOp/Core/Bridge.lean"])
     g = torch.Generator().manual_seed(chk.rng.randrange(2 ** 31))
     rng = chk.rng
@@ -1108,7 +1128,7 @@ def run(chk):
 
 
 def replay(chk, payload):
-    consts = c11_minres.generate()
+    consts = with_defaults(c11_minres.generate())
     p = payload.get("payload") or {}
     kind = p.get("check")
     if kind in ("solve", "scaling", "corr") and "A" in p:
